@@ -19,6 +19,7 @@ DECIDED = ("R1 the per-square castling-right masks equal their definition for al
 DECIDED = DECIDED + " R1/R2 also: the castling rights of the successor are read off the final value of the field - the mover's rights and-ed with exactly the masks (opponent, dest) and (mover, source) - whatever helper did it (`&mut self` method, by-value method returning Self, code in place); every function that reads the per-square mask table computes rights & MASK[colour][square]."
 DECIDED = DECIDED + ' R7 PromotionPiece::to_piece and From<PromotionPiece> for Piece map every variant to the Piece of the same name (evaluated on the four variants; match or table form).'
 DECIDED = DECIDED + ' R8 the accessors the summary keeps opaque are evaluated: piece_of_unchecked / color_of over every membership case, king_sq = member of colors[c] & kings, enpassant_pos = ep().map(file on the capture rank of the side to move), get / piece_of = composition of the two.'
+DECIDED = DECIDED + ' R9 equality of ChessMove is field-by-field (derived, or a hand-written impl evaluated over all field-equality combinations), and Pos / PromotionPiece equality is derived or a discriminant comparison: the legality gate `legals().any(|m| m == mv)` cannot identify two different moves.'
 NOT_DECIDED = ("that the xor arithmetic on concrete boards yields the prescribed placement for every legal move (the semantics of the toggles on real positions, e.g. that "
                "`mv_bb & PAWN_DOUBLE_MOVE[turn] == mv_bb` holds exactly for double steps, rests on C09's constants and on legality of the move); "
                "'accept exactly the legal moves' reduces to C01 through R6")
@@ -457,6 +458,28 @@ def r8(ctx):
         got = {dict(((t_, v) for t_, v in lf.cond if t_ == ("discr", cov))).get(("discr", cov)): lf.ret for lf in lv}
         ctx.ob(T.short(k), got == {"None": T.OPT_NONE, "Some": ("adt", "core::option::Option", "Some", (payload,))},
                f"{k} is {[(k_, T.show(v)[:120]) for k_, v in got.items()]}; expected None on an empty square, else the colour / piece found there", site=P.body(k).get("def_span"))
+
+
+@rule("C02.R9", "the legality gate compares moves structurally: equality of ChessMove (and of its field types) is field-by-field")
+def r9(ctx):
+    """is_legal(mv) is `legals().any(|m| m == mv)`: with an equality that identifies two different moves (a packed key in which `None` and
+    `Some(Knight)` collide, a comparison that leaves the promotion piece out) the gate lets an illegal move through to move_unchecked."""
+    P = ctx.P
+    CM = MG + "ChessMove"
+    ok, why = k2.structural_eq(P, f"<{CM} as core::cmp::PartialEq>::eq", CM)
+    ctx.ob("ChessMove equality", ok, f"ChessMove::eq is not field-by-field equality: {why}", site=P.body(f"<{CM} as core::cmp::PartialEq>::eq").get("def_span"), sample=why)
+    for ty in ("chess_bitboard::pos::Pos", "chess_bitboard::piece::PromotionPiece"):
+        k = f"<{ty} as core::cmp::PartialEq>::eq"
+        b = P.fns.get(k)
+        good = b is not None and bool(b.get("derived"))
+        if b is not None and not good:
+            lv = T.Engine(P).tabulate(k)
+            a0, a1 = ("obj", ("param", 0, b["locals"][1].get("n", "self"))), ("obj", ("param", 1, b["locals"][2].get("n", "a1")))
+            good = len(lv) == 1 and not lv[0].cond and lv[0].ret[0] == "bin" and lv[0].ret[1] == "Eq" and {strip_casts(lv[0].ret[2]), strip_casts(lv[0].ret[3])} == {("discr", a0), ("discr", a1)}
+        ctx.ob(f"{ty.rsplit('::', 1)[1]} equality", good, f"{k} is neither derived nor a comparison of the two discriminants", site=(b or {}).get("def_span"))
+    hk = f"<{CM} as core::hash::Hash>::hash"
+    if hk in P.fns:
+        ctx.ob("ChessMove hash", bool(P.fns[hk].get("derived")) or ok, "ChessMove has a hand-written Hash next to a non-structural Eq", site=P.fns[hk].get("def_span"))
 
 
 # ------------------------------------------------------------------ controls
